@@ -14,8 +14,10 @@
 (*        16 VertexLevelBehind (a vertex level with s but not on the ray), 32 RayThroughOpenEnd,     *)
 (*        64 RayThroughZeroTangentEnd (end of a cubic whose control point coincides with it),        *)
 (*        128 (boundary points only) the point itself is such a zero-tangent end,                    *)
-(*        256 (boundary points only) the point lies on a cubic (end point or dyadic point)           *)
-(* cf = per contour: 1 open, 2 the start point is the bottom-right-most vertex (the vertex CCW uses)  *)
+(*        256 (boundary points only) the point lies on a cubic (end point or dyadic point),          *)
+(*        512 (boundary points only) the point lies on a quadratic Bezier and is not a vertex         *)
+(* cf = per contour: 1 open, 2 the start point is the bottom-right-most vertex (the vertex CCW uses),  *)
+(*      4 it is the top-right-most vertex (bottom-right-most after a reflection in y)                 *)
 (* sf = per contour the feature bits of the ray from its start point with respect to the OTHER       *)
 (*      contours (the rays Filling casts)                                                            *)
 (*    wd  the winding number counted over the drawn segments only (open contours NOT closed)        *)
@@ -115,6 +117,9 @@ PData(p) == [vs |-> PathVerts(p), ls |-> PathLines(p), dr |-> [j \in 1..Len(p) |
              circ |-> UNION {{<<p[j].segs[i].c1, p[j].segs[i].c2[1]>> : i \in {k \in 1..Len(p[j].segs) : p[j].segs[k].k = "A" /\ p[j].segs[k].c2[1] = p[j].segs[k].c2[2]}} : j \in 1..Len(p)}]
 \* s is a (dyadic) point of a cubic segment
 OnCubic(p, s) == \E j \in 1..Len(p) : \E i \in 1..Len(p[j].segs) : p[j].segs[i].k = "C" /\ CubWB(SegStart(p[j], i), p[j].segs[i], s)[2] = 1
+\* s is a point of a quadratic segment other than a vertex of the path
+OnQuad(p, s) == /\ s \notin PathVerts(p)
+                /\ \E j \in 1..Len(p) : \E i \in 1..Len(p[j].segs) : p[j].segs[i].k = "Q" /\ QuadWB(SegStart(p[j], i), p[j].segs[i], s)[2] = 1
 \* features of the ray from s in the lattice direction d (vertex / straight-edge based only)
 AheadD(s, d, v) == Cross(s, PAdd(s, d), v) = 0 /\ (d[1] * (v[1] - s[1]) + d[2] * (v[2] - s[2])) > 0
 FeatDir(pd, s, d) ==
@@ -219,7 +224,7 @@ Scenario ==
         pd == PData(pp)
         open == \E j \in 1..Len(path) : ~path[j].cl /\ EndPt(path[j]) # path[j].s
         row(s) == LET r == PathWB(pp, s)
-                      f == FeatD(pp, pd, s) + (IF r[2] = 1 /\ s \in pd.zt THEN 128 ELSE 0) + (IF r[2] = 1 /\ OnCubic(pp, s) THEN 256 ELSE 0)
+                      f == FeatD(pp, pd, s) + (IF r[2] = 1 /\ s \in pd.zt THEN 128 ELSE 0) + (IF r[2] = 1 /\ OnCubic(pp, s) THEN 256 ELSE 0) + (IF r[2] = 1 /\ OnQuad(pp, s) THEN 512 ELSE 0)
                       x == IF open \/ r[2] # 0 \/ (f % 16) # 0 THEN -1
                            ELSE LET c == PathX(pd.dr, s, Len(pp)) IN IF c[2] THEN c[1] ELSE -2
                       wd == IF open /\ r[2] = 0 THEN PathWBdrawn(pp, s)[1] ELSE r[1]
@@ -231,7 +236,8 @@ Scenario ==
         \* per contour: 1 = open (not closed and not ending at its start), 2 = its start is the bottom-right-most vertex
         cf == [j \in 1..Len(pp) |-> LET c == pp[j] vs == CtrVerts(c) IN
                  (IF ~c.cl /\ EndPt(c) # c.s THEN 1 ELSE 0)
-                 + (IF \A v \in vs : v[1] < c.s[1] \/ (v[1] = c.s[1] /\ v[2] >= c.s[2]) THEN 2 ELSE 0)]
+                 + (IF \A v \in vs : v[1] < c.s[1] \/ (v[1] = c.s[1] /\ v[2] >= c.s[2]) THEN 2 ELSE 0)
+                 + (IF \A v \in vs : v[1] < c.s[1] \/ (v[1] = c.s[1] /\ v[2] <= c.s[2]) THEN 4 ELSE 0)]
     IN [path |-> path, rows |-> [i \in 1..NQ |-> row(QPt(i))], ccw |-> Orient(pp[1]), fill |-> FillExp(pp), open |-> open, sf |-> sf, cf |-> cf]
 
 Init == path \in PathChoice /\ done = FALSE
